@@ -199,7 +199,8 @@ Definition blake2b_impl (hash_size : Z) (key msg : list Z) : option (list Z) :=
   let '(c, out) := blake2b_final c in
   if c_oob c then None else Some out.
 
-(* lblake2b: the Lua entry point (argument checks; digln is a C int assigned from a lua_Integer) *)
+(* lblake2b: the Lua entry point (argument checks; digln is read into the C type scraped into DIGLN_IS_C_INT:
+   a lua_Integer since ede4fb9, a C int - hence truncated before the range test - before) *)
 Inductive lres : Type :=
 | LOk (s : list Z)
 | LErrKeySize        (* "bad key size" *)
